@@ -98,6 +98,35 @@ func genLabels(r *Rng) *rfc1035label.Labels {
 	for i := 0; i < n; i++ {
 		l.Labels = append(l.Labels, genLabelName(r))
 	}
+	// a third of the label sets are in "decoded" state (they carry the bytes
+	// they were parsed from), half of those with names edited afterwards:
+	// case-only change, replaced name, dropped name, appended name
+	if r.Chance(1, 3) {
+		d, err := rfc1035label.FromBytes(l.ToBytes())
+		if err == nil {
+			if r.Chance(1, 2) && len(d.Labels) > 0 {
+				i := r.Intn(len(d.Labels))
+				switch r.Intn(4) {
+				case 0:
+					b := []byte(d.Labels[i])
+					for j := range b {
+						if b[j] >= 'a' && b[j] <= 'z' {
+							b[j] -= 32
+							break
+						}
+					}
+					d.Labels[i] = string(b)
+				case 1:
+					d.Labels[i] = genLabelName(r)
+				case 2:
+					d.Labels = append(d.Labels[:i:i], d.Labels[i+1:]...)
+				default:
+					d.Labels = append(d.Labels, genLabelName(r))
+				}
+			}
+			return d
+		}
+	}
 	return l
 }
 
@@ -115,7 +144,8 @@ func genDUID(r *Rng) dhcpv6.DUID {
 		return d
 	default:
 		t := r.Pick([]int{0, 5, 6, 255, 65535})
-		return &dhcpv6.DUIDOpaque{Type: dhcpv6.DUIDType(t), Data: r.Bytes(r.Range(0, 20))}
+		// RFC 8415: 1..128 octets after the type code (0 and 129+ only via the malformed wire streams)
+		return &dhcpv6.DUIDOpaque{Type: dhcpv6.DUIDType(t), Data: r.Bytes(r.Pick([]int{1, 2, 20, 128, r.Range(1, 128)}))}
 	}
 }
 
@@ -253,7 +283,12 @@ func genOpt6(r *Rng, code int, depth int, loose bool) dhcpv6.Option {
 				v := dhcpv6.NTPSuboptionMCAddr(ip6(r))
 				o.Suboptions = append(o.Suboptions, &v)
 			case 2:
-				o.Suboptions = append(o.Suboptions, &dhcpv6.NTPSuboptionSrvFQDN{Labels: *genLabels(r)})
+				l := genLabels(r)
+				if !loose {
+					// RFC 5908: exactly one FQDN
+					l = &rfc1035label.Labels{Labels: []string{genLabelName(r)}}
+				}
+				o.Suboptions = append(o.Suboptions, &dhcpv6.NTPSuboptionSrvFQDN{Labels: *l})
 			default:
 				o.Suboptions = append(o.Suboptions, &dhcpv6.OptionGeneric{OptionCode: dhcpv6.OptionCode(r.Pick([]int{0, 4, 99, 65535})), OptionData: r.Bytes(r.Range(0, 8))})
 			}
